@@ -235,6 +235,62 @@ void h_block_header(void)
   if (rv == ERR_GROUPS) V_CANARY("zero selectors rejected");
 }
 
+
+/* O6.2  Prefix decoding agreement: the tables built by the real make_tree() for a concrete complete length vector, used by the two
+   copies of the decoding expression of retrieve() (extracted verbatim), decode EVERY 64-bit buffer content to the symbol whose
+   canonical code (bzip2: codes assigned in order of length, then symbol number) is a prefix of it, consuming exactly its length. */
+#ifndef PD_CASE
+#define PD_CASE 0
+#endif
+#if PD_CASE == 0        /* 21 symbols, lengths 1..20 and 20: the two longest codes have 20 bits (canonical path beyond the 10-bit table) */
+#define PD_N 21
+static const uint8_t PD_LEN[PD_N] = { 1, 2, 3, 4, 5, 6, 7, 8, 9, 10, 11, 12, 13, 14, 15, 16, 17, 18, 19, 20, 20 };
+#elif PD_CASE == 1      /* flat 8-symbol code */
+#define PD_N 8
+static const uint8_t PD_LEN[PD_N] = { 3, 3, 3, 3, 3, 3, 3, 3 };
+#elif PD_CASE == 2      /* lengths not in symbol order, crossing the 10-bit look-up boundary */
+#define PD_N 13
+static const uint8_t PD_LEN[PD_N] = { 12, 1, 11, 2, 10, 3, 9, 4, 8, 5, 7, 6, 12 };
+#else                   /* smallest alphabet */
+#define PD_N 3
+static const uint8_t PD_LEN[PD_N] = { 2, 1, 2 };
+#endif
+#ifndef PD_SLOW
+#define PD_SLOW 0
+#endif
+void h_prefix_decode(void)
+{
+  V_IN(uint64_t, v0);
+  unsigned i, L;
+  V_ASSUME((v0 & 1) == 0);        /* the bit buffer holds at most 63 bits (NEED keeps w <= 63: all-ones is reserved for the base[] sentinel) */
+  RS.alpha_size = PD_N; RS.t = 0; g_mt_stop = 0;
+  for (i = 0; i < PD_N; i++) RS.code_len[i] = PD_LEN[i];
+  make_tree(&RS);
+  V_ASSERT(RS.mtf[0] == 0, "make_tree: a complete code is accepted and gets its table number");
+  /* reference: canonical code assignment of the format */
+  unsigned want_s = 999, want_k = 0; uint32_t code = 0;
+  for (L = 1; L <= MAX_CODE_LENGTH; L++) {
+    for (i = 0; i < PD_N; i++) if (PD_LEN[i] == L) {
+      if ((v0 >> (64 - L)) == code) { want_s = (i == 0 ? RUN_A : i == 1 ? RUN_B : i == PD_N - 1 ? EOB : i - 1); want_k = L; }    /* internal symbol numbering of decode.c */
+      code++;
+    }
+    code <<= 1;
+  }
+  struct tree *T = &RS.tree[0]; uint64_t v = v0; unsigned w = 63, x, k, s;
+#if PD_SLOW
+#include "src/extract/prefix_decode_slow.inc"
+#else
+#include "src/extract/prefix_decode_fast.inc"
+#endif
+  V_ASSERT(want_s != 999, "reference: a complete code has exactly one code word that is a prefix of any bit string");
+  V_ASSERT(s == want_s && k == want_k, "prefix decoding: the symbol and length found through start[]/base[]/count[]/perm[] are those of the canonical code word that prefixes the buffer");
+  V_ASSERT(v == (v0 << want_k) && w == 63 - want_k, "prefix decoding: exactly the code word's bits are consumed");
+#if PD_CASE == 0
+  if (want_k == 20) V_CANARY("20-bit code decoded");
+#endif
+  if (want_k <= 3) V_CANARY("short code decoded");
+}
+
 #ifdef VERIF_REPLAY
 int main(void) { HARNESS(); puts("REPLAY-PASS"); return 0; }
 #endif
